@@ -209,7 +209,7 @@ Proof.
   cbn [container_decode]. if_step. if_step. acc_step. if_step. if_step. acc_step. acc_step.
   if_step.
   - acc_step. apply safe_bind; [apply payload_unmarshal_safe|]. intros p _.
-    acc_step. apply safe_bind; [apply IH; lia|intros; apply safe_ok].
+    if_step. acc_step. apply safe_bind; [apply IH; lia|intros; apply safe_ok].
   - if_step. acc_step. apply IH. lia.
 Qed.
 
